@@ -13,7 +13,7 @@ import (
 
 func init() {
 	props["C08"] = &propDef{
-		rule: "cases = (a) synthetic files with an mdat (8/16-byte header) at a random position: every interesting (start,size) range (each payload edge +-1, ranges ending at the last byte, zero length, outside) through ReadData and CopyData in lazy and in-memory mode; lazy Encode = header only; (b) CopySampleData over chunk ranges and over generated sample tables, all sample intervals, work buffers {0,1,2,3,5,7,8,64,4096}, both modes; (c) generated progressive files (1..3 tracks, mdat before/after moov, 32/64-bit mdat header, stco/co64) and the repository's test files decoded in both modes: same box tree, sizes, positions; (d) multi-GiB progressive files presented by a sparse io.ReadSeeker (8-byte mdat headers with size fields up to 0xffffffff, 16-byte headers with sizes around 2^32 and up to 2^36, moov before or after, co64 chunks at the first payload byte, across offset 2^32 and ending at the last payload byte) decoded lazily: tree, Size/HeaderSize/payload offset/File.Size against the header bytes in the file, Encode = that header, ReadData/CopyData/CopySampleData against the file bytes; (e) the built examples/segmenter binary with and without -lazy (one file per track and -m) on generated progressive files whose chunk layout varies per track (one sample per chunk, all samples in one chunk, long chunks so that segment intervals lie inside one chunk, short random chunks, mixed; video with optional audio track; segment durations from 1 ms to longer than the track): byte-identical output files in both modes, bytes behind every mdat header = what the header and the truns announce = the bytes of the segment's samples in the input, and the copied payload of every lazily written segment against the model's chunk walk; non-trivial = distinct (file, query) whose range is non-empty",
+		rule: "cases = (a) synthetic files with an mdat (8/16-byte header) at a random position: every interesting (start,size) range (each payload edge +-1, ranges ending at the last byte, zero length, outside) through ReadData and CopyData in lazy and in-memory mode; lazy Encode = header only; histories of 2..6 ReadData/CopyData calls on one mdat object whose results are all held until the last call returned (later ranges shorter and longer than earlier ones), also on the mdat boxes of whole decoded files; (b) CopySampleData over chunk ranges and over generated sample tables, all sample intervals, work buffers {0,1,2,3,5,7,8,64,4096}, both modes; (c) generated progressive files (1..3 tracks, mdat before/after moov, 32/64-bit mdat header, stco/co64) and the repository's test files decoded in both modes: same box tree, sizes, positions; (d) multi-GiB progressive files presented by a sparse io.ReadSeeker (8-byte mdat headers with size fields up to 0xffffffff, 16-byte headers with sizes around 2^32 and up to 2^36, moov before or after, co64 chunks at the first payload byte, across offset 2^32 and ending at the last payload byte) decoded lazily: tree, Size/HeaderSize/payload offset/File.Size against the header bytes in the file, Encode = that header, ReadData/CopyData/CopySampleData against the file bytes; (e) the built examples/segmenter binary with and without -lazy (one file per track and -m) on generated progressive files whose chunk layout varies per track (one sample per chunk, all samples in one chunk, long chunks so that segment intervals lie inside one chunk, short random chunks, mixed; video with optional audio track; segment durations from 1 ms to longer than the track): byte-identical output files in both modes, bytes behind every mdat header = what the header and the truns announce = the bytes of the segment's samples in the input, and the copied payload of every lazily written segment against the model's chunk walk; non-trivial = distinct (file, query) whose range is non-empty",
 		gen:  genC08,
 		exec: execC08,
 	}
@@ -67,6 +67,42 @@ func execC08Inner(op string, a []string) string {
 			return "ReadData=" + r1 + " CopyData=" + r2
 		}
 		return r1
+	case "md.hist":
+		// md.hist <lazy> <mdat start> <hdr len> <box size> <start:len:kind,...> <file>: the reads are made one after the
+		// other on ONE mdat object (kind r = ReadData, c = CopyData into a writer of its own), every result is HELD
+		// until the last read has returned, and only then rendered
+		F, _ := unhx(a[5])
+		m := mkMdat(a[0], F, atoi(a[1]), atoi(a[2]), atoi(a[3]))
+		rs := bytes.NewReader(F)
+		var held [][]byte
+		for _, x := range strings.Split(a[4], ",") {
+			p := strings.Split(x, ":")
+			st, ln := int64(atoi(p[0])), int64(atoi(p[1]))
+			if p[2] == "c" {
+				var buf bytes.Buffer
+				n, err := m.CopyData(st, ln, rs, &buf)
+				if err != nil || n != ln {
+					held = append(held, nil)
+				} else {
+					held = append(held, buf.Bytes())
+				}
+			} else {
+				d, err := m.ReadData(st, ln, rs)
+				if err != nil {
+					d = nil
+				}
+				held = append(held, d)
+			}
+		}
+		var l []string
+		for _, d := range held {
+			if d == nil {
+				l = append(l, "err")
+			} else {
+				l = append(l, hx(d))
+			}
+		}
+		return strings.Join(l, ",")
 	case "md.enc":
 		F, _ := unhx(a[4])
 		m := mkMdat(a[0], F, atoi(a[1]), atoi(a[2]), atoi(a[3]))
@@ -193,6 +229,44 @@ func genC08(c *Ctx) {
 					c.Fail("C08-read-range", "ReadData/CopyData of a valid range differs between modes or from the file bytes",
 						fmt.Sprintf("md.read 0|1 %d %d %d %d %d %s", s.ms, s.hl, s.sz, st, ln, fh), "eager="+clip(res[0])+" lazy="+clip(res[1]), clip(want))
 				}
+			}
+		}
+		// histories: 2..6 reads of valid non-empty ranges on ONE mdat object per mode, all results held until the end
+		// (a caller that reads several samples and then uses them); later ranges shorter, equal and longer than earlier
+		// ones; each held result must still be the file bytes of its range, in both modes
+		if pl > 0 {
+			nr := 2 + c.R.Intn(5)
+			var rs, wants []string
+			for k := 0; k < nr; k++ {
+				o := ps + c.R.Intn(pl)
+				l := 1 + c.R.Intn(pe-o)
+				switch c.R.Intn(5) {
+				case 0:
+					o, l = ps, pl // the whole payload
+				case 1:
+					l = pe - o // up to the last byte
+				case 2:
+					l = 1 + c.R.Intn(minInt(pe-o, 4)) // short
+				}
+				kind := "r"
+				if c.R.Intn(4) == 0 {
+					kind = "c"
+				}
+				rs = append(rs, fmt.Sprintf("%d:%d:%s", o, l, kind))
+				wants = append(wants, hx(s.F[o:o+l]))
+			}
+			want := strings.Join(wants, ",")
+			var res [2]string
+			for li, lazy := range []string{"0", "1"} {
+				req := fmt.Sprintf("md.hist %s %d %d %d %s %s", lazy, s.ms, s.hl, s.sz, strings.Join(rs, ","), fh)
+				res[li] = execC08(req)
+				c.Case(req, res[li])
+				c.Eval(req)
+				c.Count("read-history")
+			}
+			if res[0] != want || res[1] != want {
+				c.Fail("C08-read-history", "results of several ReadData/CopyData calls on one mdat object, held until the last call returned, differ between modes or from the file bytes of their ranges",
+					fmt.Sprintf("md.hist 0|1 %d %d %d %s %s", s.ms, s.hl, s.sz, strings.Join(rs, ","), fh), "eager="+clip(res[0])+" lazy="+clip(res[1]), clip(want))
 			}
 		}
 		// lazy encode = header; header + payload = original box
@@ -394,6 +468,10 @@ func genC08(c *Ctx) {
 				msg = ""
 			}
 		}
+		if strings.HasPrefix(msg, heldMsg) {
+			c.Fail("C08-read-history-file", "lazy and in-memory decode differ: "+msg, req+" "+clip(hx(d)), msg, "")
+			msg = ""
+		}
 		if msg != "" {
 			c.Fail("C08-tree-equal", "lazy and in-memory decode differ: "+msg, req+" "+clip(hx(d)), msg, "")
 		}
@@ -402,6 +480,15 @@ func genC08(c *Ctx) {
 	genC08Virt(c)
 	// (e) the segmenter tool with and without -lazy on generated progressive files of varied chunk layouts, see c08_seg.go
 	genC08Seg(c)
+}
+
+const heldMsg = "held ReadData results:"
+
+func minI64(a, b int64) int64 {
+	if a < b {
+		return a
+	}
+	return b
 }
 
 // compareLazyEager decodes d in both modes; with prefix > 0 the file sits behind `prefix` foreign bytes of a larger
@@ -478,6 +565,33 @@ func compareLazyEager(d []byte, prefix int) string {
 				y, e2 := mb.ReadData(st, ln, bytes.NewReader(d))
 				if e1 != nil || e2 != nil || !bytes.Equal(x, y) {
 					return fmt.Sprintf("full payload read differs (%v, %v)", e1, e2)
+				}
+			}
+			// several ranges read from the decoded file's mdat object in each mode, every result held until the last
+			// read has returned: each must (still) be the file bytes of its range
+			if L := int64(ma.Size() - ma.HeaderSize()); L > 0 {
+				st := int64(ma.PayloadAbsoluteOffset())
+				rgs := [][2]int64{{st, L - L/2}, {st + L/2, L - L/2}, {st + L/3, minI64(5, L-L/3)}, {st, L}, {st + L - 1, 1}, {st, 1}, {st + L/4, L - L/4}}
+				for mode, m := range []*mp4.MdatBox{ma, mb} {
+					var held [][]byte
+					for _, rg := range rgs {
+						var x []byte
+						var err error
+						if mode == 1 {
+							x, err = m.ReadData(rg[0], rg[1], bytes.NewReader(d))
+						} else {
+							x, err = m.ReadData(rg[0], rg[1], nil)
+						}
+						if err != nil {
+							return fmt.Sprintf("%s read of range %d+%d fails in mode %d: %v", heldMsg, rg[0], rg[1], mode, err)
+						}
+						held = append(held, x)
+					}
+					for k, rg := range rgs {
+						if !bytes.Equal(held[k], d[rg[0]:rg[0]+rg[1]]) {
+							return fmt.Sprintf("%s the bytes returned for range %d+%d (read %d of %d) are not the file bytes of the range after the later reads (mode %d, 1 = lazy)", heldMsg, rg[0], rg[1], k+1, len(rgs), mode)
+						}
+					}
 				}
 			}
 		} else {
